@@ -11,7 +11,7 @@ func TestCheck(t *testing.T) {
 	defer e.Finish()
 	rec = e.Rec
 
-	rt.Rapid(e, "roundtrip", 120_000, 1_200_000, genCase(false), Run)
-	rt.Rapid(e, "roundtrip-formats", 80_000, 800_000, genCase(true), Run)
+	rt.Rapid(e, "roundtrip", 120_000, 480_000, genCase(false), Run)
+	rt.Rapid(e, "roundtrip-formats", 80_000, 320_000, genCase(true), Run)
 	rt.Enum(e, "float32-sweep", func(yield func(F32Case) bool) { enumFloat32(e, yield) }, RunF32)
 }
